@@ -8,7 +8,7 @@ import FancyModel.Model.Utf8
 Rust text is fixed here and is *trusted*; notes/translator-expand.md has the full table.
 
 * `&str` / `String` are `List Char`; `template.chars()` is the list, `iter.next()` takes its head, `iter.as_str()` is what
-  is left. **`parse_id` and `parse_decimal` (src/parse.rs) are NOT translated** (iterator combinators with closures over
+  is left. **`parse_id` and `parse_decimal` (src/parse.rs) are not translated here; closed by Proofs/C12d.lean through the parse.rs translation** (iterator combinators with closures over
   byte indices: `char_indices().peekable()`, `next_if`, `find`, `usize::from_str_radix`, byte-offset slicing): they are the
   model's `parseId isId` / `parseDecimal`, whose `skip` counts CHARACTERS where the Rust code counts the bytes of the same
   prefix; accordingly `iter.as_str()[skip..].chars()` is `List.drop skip`. `name.parse::<usize>()` is `parseUsize`.
